@@ -1044,6 +1044,9 @@ def job_run_accepted(args):
                 label = "fault:" + info["cls"]
         elif mode == "near":
             prog, label = near_valid(prog, rng, seed)
+        elif mode == "near_cycle":
+            # a call cycle that does not pass through the production task (C16: a verdict must come, see NoVerdict)
+            prog, label = near_valid(prog, rng, rng.choice([80, 10, 70]))
         elif mode == "ploop_limit":
             # a parallel loop whose limit is read from a service result, first thing in the start task: the execution
             # engine delivers the number as it likes (0, negative, as a float)
@@ -1339,11 +1342,11 @@ def _run(ctx, pool, res):
     n_wf = {"C11": 220, "C16": 60, "C10": 40, "C19": 40, "C09": 0}[prop] * (1 if quick else 10)
     n_fault = {"C10": 200, "C19": 200, "C16": 60, "C11": 30, "C09": 0}[prop] * (1 if quick else 10)
     n_text = {"C16": 220, "C10": 0, "C11": 0, "C19": 0, "C09": 0}[prop] * (1 if quick else 10)
-    n_run = {"C09": 320}.get(prop, 0) * (1 if quick else 10)
+    n_run = {"C09": 320, "C16": 40}.get(prop, 0) * (1 if quick else 10)
     wf_jobs = [(seed * 7919 + i, size) for i in range(n_wf)]
     fault_jobs = [(seed * 104729 + i, size, 4) for i in range(n_fault)] + [(seed * 611953 + i, size, -1) for i in range(max(40, n_fault // 4) if n_fault else 0)]
     text_jobs = [(seed * 1299709 + i, size, 6) for i in range(n_text)]
-    run_jobs = [(seed * 15485863 + i, size, ["wf", "nested_loops", "fault", "near", "wf", "shadow", "fault", "shadow", "wf", "ploop_limit"][i % 10]) for i in range(n_run)]
+    run_jobs = [(seed * 15485863 + i, size, "near_cycle" if prop == "C16" else ["wf", "nested_loops", "fault", "near", "wf", "shadow", "fault", "shadow", "wf", "ploop_limit"][i % 10]) for i in range(n_run)]
     wf_res = pool.map(job_wf, wf_jobs, chunksize=2) if wf_jobs else []
     fault_res = pool.map(job_faults, fault_jobs, chunksize=2) if fault_jobs else []
     text_res = pool.map(job_text, text_jobs, chunksize=2) if text_jobs else []
